@@ -5,7 +5,7 @@ from ..common import Result
 ID = "C13"
 LEVEL = "exploration"
 WORLDS = [(q, "plain") for q in (1, 2, 3, 8)]
-BUDGET = {"quick": dict(cases=500), "thorough": dict(cases=12000)}
+BUDGET = {"quick": dict(cases=1000), "thorough": dict(cases=36000)}
 MIN_NONTRIVIAL = {"quick": 400, "thorough": 6000}
 BLOB = (400, 1600)
 RULE = ("Hypothesis byte-backed generator of histories for ring capacities 1, 2, 3 and 8 (one world executable each): 4-60 operations at generated service "
